@@ -45,10 +45,31 @@ def metric_decls(ctx, rep):
             kind = _dotted(v.func)
             labels = None
             for kw in v.keywords:
-                if kw.arg == "labelnames" and isinstance(kw.value, (ast.Tuple, ast.List)):
-                    labels = tuple(e.value for e in kw.value.elts if isinstance(e, ast.Constant))
+                if kw.arg != "labelnames":
+                    continue
+                val = kw.value
+                if isinstance(val, ast.Name):
+                    # a module-level constant shared between metrics: BY_EXECUTOR = ("executor",)
+                    defs = prom.module.assigns.get(val.id, [])
+                    val = defs[0] if len(defs) == 1 else None
+                if isinstance(val, (ast.Tuple, ast.List)):
+                    labels = tuple(e.value for e in val.elts if isinstance(e, ast.Constant))
+                elif isinstance(val, ast.Constant) and isinstance(val.value, str):
+                    # a bare string -- ("executor") without the comma -- is iterated by prometheus_client element by
+                    # element: the label names become its characters
+                    labels = ("<not a tuple/list literal: the string %r>" % val.value,)
             pd[n] = (kind, labels)
     return null, prom, nd, pd
+
+
+def labelnames_rule(ctx, rep, rule, names):
+    """the metrics a worker touches inside its own exception handling must be usable: a metric whose labelnames is a
+    bare string raises ValueError from .labels(...) right there (shared with C08 / C18: the poll worker counts
+    POLL_ERROR in the handler that fails the shown futures)"""
+    null, prom, nd, pd = metric_decls(ctx, rep)
+    for n in names:
+        if n in pd and pd[n][1] is not None:
+            rep.ob(rule, "metric %s: labelnames is a tuple / list of names" % n, not any(str(x).startswith("<not a tuple") for x in pd[n][1]), "labelnames of %s is %s: every .labels(executor=...) on it raises ValueError, inside the worker's handler" % (n, pd[n][1][0]), prom.module.relpath)
 
 
 def check(ctx, rep):
@@ -65,6 +86,8 @@ def check(ctx, rep):
     rep.count("metrics declared (union of NullMetrics and PrometheusMetrics)", len(set(nd) | set(pd)), 16)
     for n in sorted(set(nd) | set(pd)):
         rep.ob("R-SIBLING", "metric %s declared in both" % n, n in nd and n in pd, "%s is missing from %s" % (n, "PrometheusMetrics" if n in nd else "NullMetrics"), where_of(prog.fn("metrics:track_future")))
+        if n in pd and pd[n][1] is not None:
+            rep.ob("R-SIBLING", "metric %s: labelnames is a tuple / list of names" % n, not any(str(x).startswith("<not a tuple") for x in pd[n][1]), "labelnames of %s is %s: prometheus_client iterates it, so a bare string declares one label per character and every .labels(executor=...) on this metric raises ValueError -- in the place where the event is counted" % (n, pd[n][1][0]), prom.module.relpath)
         if n in nd and n in pd:
             rep.ob("R-SIBLING", "metric %s kind" % n, nd[n] == pd[n][0], "NullMetrics declares %s, PrometheusMetrics %s" % (nd[n], pd[n][0]), null.module.relpath)
 
@@ -316,6 +339,10 @@ def pair_future(ctx, rep):
         regs = [e for e in p.calls() if q.call_name(e) == "add_done_callback" and q.recv(e) == F]
         rep.ob("R-PAIR-F", "track_future: registers one done-callback on the future", len(regs) == 1, "found %d registrations" % len(regs), where_of(tf), trace_of(p))
         rep.ob("R-PAIR-F", "track_future: returns its argument", p.value == F, "track_future must return the future it was given", where_of(tf))
+        if len(incs) == 1 and len(regs) == 1:
+            # "never negative on the way": a future that is already done runs the callback (and its dec) at
+            # registration time, so the inc has to come first
+            rep.ob("R-PAIR-F", "track_future: the gauge is incremented before the done-callback is registered", incs[0].seq < regs[0].seq, "FUTURE_INPROGRESS.inc() comes after add_done_callback(): for a future that is already done (or completes in between) the callback decrements first and the gauge reads -1 for a moment", where_of(tf, incs[0].node), trace_of(p, incs[0].seq))
         marks = p.evs("immediate-callback")
         if not marks or not incs:
             continue
